@@ -32,6 +32,9 @@ type c15Plan struct {
 	Size int    `json:"size"` // initial packet size
 	Ops  []qOp  `json:"ops"`
 	Enum bool   `json:"enum,omitempty"`
+	// StartNr: the packets enqueued on the receive side are numbered like the packets of a logical channel,
+	// from this number on (the numbers wrap after 255).
+	StartNr int `json:"start_nr,omitempty"`
 }
 
 type c15 struct{}
@@ -90,7 +93,7 @@ func (c15) Gen(r *Rand, idx int, tier string) interface{} {
 		}
 		return p
 	}
-	p := &c15Plan{Size: 9 + r.Intn(592)}
+	p := &c15Plan{Size: 9 + r.Intn(592), StartNr: Pick(r, []int{0, 0, 250, 253, 255})}
 	if r.Pct(25) {
 		p.Size = Pick(r, []int{9, 10, 11, 16, 512})
 	}
@@ -270,6 +273,7 @@ func (c15) Run(plan interface{}, schedSeed uint64, replay []simrt.Choice, lenien
 				q.SetPosition(sv.pk, sv.data)
 				pos = sv.abs
 			}
+			nextNr := p.StartNr
 			var slots [3]*saved
 			// beforeRead: a read that is going to run out of bytes is only issued with a saved position at hand
 			beforeRead := func(n int) {
@@ -285,7 +289,8 @@ func (c15) Run(plan interface{}, schedSeed uint64, replay []simrt.Choice, lenien
 				switch o.Op {
 				case "add":
 					b := gen(o.N)
-					pk := &tds.Packet{Header: tds.PacketHeader{Length: uint16(8 + len(b))}, Data: b}
+					pk := &tds.Packet{Header: tds.PacketHeader{Length: uint16(8 + len(b)), PacketNr: uint8(nextNr), Channel: 1}, Data: b}
+					nextNr++
 					if o.EOM {
 						pk.Header.Status = tds.TDS_BUFSTAT_EOM
 					}
